@@ -36,6 +36,11 @@ def run(tier):
     if tier == "thorough":
         cr.update({"MaxExt": 3})
     runs.append(("c01_recv", cr))
+    # the first operation on the owning array itself, through every receiver category (an array is not just a view of itself)
+    ca = constants("quick"); ca.update({"MaxExt": 2, "MaxDepth": 1, "Recvs": vlib.Sub("RecvsAll"), "Ons": vlib.Sub("OnsArray")})
+    if tier == "thorough":
+        ca.update({"MaxExt": 3, "MaxDepth": 2})
+    runs.append(("c01_on_array", ca))
     # the call syntax with four arguments (every mix of index / range / all) on 4-dimensional roots
     cp = constants("quick"); cp.update({"MaxD": 4, "MaxExt": 2, "MaxDepth": 1, "ParenArgs": 4, "ParenLean": False, "OpNames": {"paren"}, "MaxDim": 5})
     runs.append(("c01_paren4", cp))
